@@ -17,6 +17,8 @@ from ..schema import (
     InputObjectType,
     InputValue,
     InterfaceType,
+    ListType,
+    NonNullType,
     ObjectType,
     ScalarType,
     Schema,
@@ -401,8 +403,16 @@ class TypeInfoVisitor(DispatchingVisitor):
         self._leave_input_value()
 
     def enter_list_value(self, node):
-
-        item_type = unwrap_type(self.input_type) if self.input_type else None
+        # The items of a list literal are expected to be of the item type of
+        # the list type expected at this position: one non-null wrapper and
+        # one list level are removed, the nullability and the remaining list
+        # levels of the items are kept. At a non-list position the (nullable)
+        # type of the position is kept.
+        item_type = self.input_type
+        if isinstance(item_type, NonNullType):
+            item_type = item_type.type
+        if isinstance(item_type, ListType):
+            item_type = item_type.type
 
         self._input_type_stack.append(
             item_type if item_type and is_input_type(item_type) else None
